@@ -1,7 +1,7 @@
 (* C25: soundness of the executable oracle and of [check]. *)
 From Coq Require Import NArith ZArith List Bool Lia ZifyN ZifyBool String.
 From Verif.lib Require Import Term.
-From Verif.model Require Import Overflow Rewards RewardsSpec.
+From Verif.model Require Import Overflow Rewards RewardsPool RewardsSpec.
 From Verif.proofs Require Import OverflowProofs RewardsProofs.
 Import ListNotations.
 Open Scope N_scope.
@@ -68,7 +68,7 @@ Lemma check_sound level rate residue recalc nr minbal interval pending cfix pool
   spec_ok s nr p pool units (Some (mkR l' r' f' c')) = true /\
   next_rewards_state s nr p pool units = Some (mkR l' r' f' c').
 Proof.
-  cbv zeta. unfold tn, tb. cbn [check parse_obs]. rewrite !N2Z.id.
+  cbv zeta. unfold tn, tb. cbn [check]. cbn [check_nrs parse_obs]. rewrite !N2Z.id.
   assert (Hnn : forall x, (0 <=? Z.of_N x)%Z = true) by (intros; apply Z.leb_le; lia).
   rewrite !Hnn. cbn [andb].
   assert (Hb : forall b : bool, ((if b then 1 else 0) =? 1)%Z = b) by (intros []; reflexivity).
@@ -85,4 +85,16 @@ Proof.
   apply N.ltb_lt in E1, E2, E3, E4, E6, E8.
   symmetry. apply spec_determines_output; try assumption.
   repeat split; assumption.
+Qed.
+
+(* an accepted pool line carries an outcome that satisfies the acceptance iff *)
+Lemma check_pool_sound prev new pool units minbal obs o :
+  parse_wres obs = Some o ->
+  (let case := TL [TS "pool"; tn prev; tn new; tn pool; tn units; tn minbal; obs] in
+   check case = v_ok \/ check case = v_triv) ->
+  spec_ok_pool prev new pool units minbal o = true.
+Proof.
+  intros Hp. cbv zeta. unfold tn. cbn [check]. cbn [check_pool]. rewrite !N2Z.id, Hp.
+  destruct (negb _); [intros [H|H]; discriminate|].
+  intros H. apply verdict_accepts in H. tauto.
 Qed.
